@@ -32,6 +32,7 @@ class Tr:
         self.fuel = fuel or {}
         self.n = 0
         self.binds = []
+        self.local_lists = set()
 
     def fresh(self, base='t'):
         self.n += 1
@@ -106,9 +107,18 @@ class Tr:
                 raise Refuse('chained comparison')
             a, ta = self.expr(e.left)
             b, tb = self.expr(e.comparators[0])
+            op = type(e.ops[0])
+            if op in (ast.In, ast.NotIn):
+                # x in L for a list L: any(e is x or e == x for e in L); eqA is the element equality
+                if tb[0] != 'list' or tb[1] not in (ta, '?') or ta not in ('Z', 'A'):
+                    raise Refuse('membership on %r,%r' % (ta, tb))
+                g = '(py_mem %s %s %s)' % ('Z.eqb' if ta == 'Z' else 'eqA', a, b)
+                return (g if op is ast.In else '(negb %s)' % g), 'bool'
+            if ta == 'A' and tb == 'A' and op in (ast.Eq, ast.NotEq):
+                g = '(eqA %s %s)' % (a, b)
+                return (g if op is ast.Eq else '(negb %s)' % g), 'bool'
             if ta != 'Z' or tb != 'Z':
                 raise Refuse('comparison on %r,%r' % (ta, tb))
-            op = type(e.ops[0])
             tbl = {ast.Lt: '(%s <? %s)', ast.LtE: '(%s <=? %s)', ast.Gt: '(%s >? %s)', ast.GtE: '(%s >=? %s)',
                    ast.Eq: '(%s =? %s)', ast.NotEq: '(negb (%s =? %s))'}
             if op not in tbl:
@@ -139,6 +149,35 @@ class Tr:
             return v, tl[1]
         if isinstance(e, ast.Call):
             return self.call(e)
+        if isinstance(e, ast.ListComp):
+            # [E for v in range(N) if C]
+            if len(e.generators) != 1:
+                raise Refuse('nested comprehension')
+            gen = e.generators[0]
+            if (gen.is_async or not isinstance(gen.target, ast.Name) or len(gen.ifs) > 1
+                    or not (isinstance(gen.iter, ast.Call) and ast.unparse(gen.iter.func) == 'range'
+                            and len(gen.iter.args) == 1 and not gen.iter.keywords)):
+                raise Refuse('comprehension form')
+            n, tn = self.expr(gen.iter.args[0])
+            if tn != 'Z':
+                raise Refuse('range of %r' % (tn,))
+            v = gen.target.id
+            saved_env, saved_binds = dict(self.env), self.binds
+            self.env[v] = 'Z'                      # comprehension variable: own scope
+            self.binds = []
+            c = self._bool(gen.ifs[0]) if gen.ifs else 'true'
+            if self.binds:
+                raise Refuse('comprehension condition may raise')
+            res = {}
+
+            def mk():
+                g, t = self.expr(e.elt)
+                res['t'] = t
+                return 'Some %s' % g
+            pre, body = self.with_binds(mk)
+            self.env, self.binds = saved_env, saved_binds
+            r, _ = self.hoist('(py_comp_range %s (fun %s => %s) (fun %s => %s%s))' % (n, v, c, v, pre, body), ('list', res['t']), 'lc')
+            return r, ('list', res['t'])
         raise Refuse('expression %s' % type(e).__name__)
 
     def call(self, e):
@@ -203,10 +242,19 @@ class Tr:
             return True
         return False
 
+    @staticmethod
+    def is_append(st):
+        return (isinstance(st, ast.Expr) and isinstance(st.value, ast.Call) and isinstance(st.value.func, ast.Attribute)
+                and st.value.func.attr == 'append' and isinstance(st.value.func.value, ast.Name)
+                and len(st.value.args) == 1 and not st.value.keywords)
+
     def assigned(self, stmts):
         out = []
         for st in stmts:
             if self.is_print_only(st):
+                continue
+            if self.is_append(st):
+                out.append(st.value.func.value.id)
                 continue
             if isinstance(st, ast.Assign):
                 for tg in st.targets:
@@ -275,6 +323,10 @@ class Tr:
             t = res['t']
             if isinstance(tg, ast.Name):
                 self.env[tg.id] = t
+                if isinstance(st.value, (ast.List, ast.ListComp)):
+                    self.local_lists.add(tg.id)
+                else:
+                    self.local_lists.discard(tg.id)
                 return pre + 'let %s := %s in\n' % (tg.id, g) + self.block(rest, tail)
             if isinstance(tg, ast.Tuple) and t[0] == 'tuple' and len(tg.elts) == len(t[1]):
                 for n, tt in zip(tg.elts, t[1]):
@@ -283,6 +335,24 @@ class Tr:
                     self.env[n.id] = tt
                 return pre + "let '(%s) := %s in\n" % (', '.join(n.id for n in tg.elts), g) + self.block(rest, tail)
             raise Refuse('assignment form')
+        if self.is_append(st):
+            # L.append(e) on a local list L (no aliases: L must have been bound by a list display in this function)
+            name = st.value.func.value.id
+            tl = self.env.get(name)
+            if tl is None or tl[0] != 'list' or name not in self.local_lists:
+                raise Refuse('append on %s' % name)
+            res = {}
+
+            def mk():
+                g, t = self.expr(st.value.args[0])
+                res['t'] = t
+                return g
+            pre, g = self.with_binds(mk)
+            if tl[1] == '?':
+                self.env[name] = ('list', res['t'])
+            elif tl[1] != res['t']:
+                raise Refuse('append of %r to %r' % (res['t'], tl))
+            return pre + 'let %s := (%s ++ [%s]) in\n' % (name, name, g) + self.block(rest, tail)
         if isinstance(st, ast.AugAssign):
             if not isinstance(st.target, ast.Name) or self.env.get(st.target.id) != 'Z':
                 raise Refuse('augassign')
@@ -321,6 +391,9 @@ class Tr:
                 if envb.get(v) != self.env.get(v):
                     if envb[v][0] == 'list' and self.env[v][0] == 'list' and '?' in (envb[v][1], self.env[v][1]):
                         self.env[v] = envb[v] if envb[v][1] != '?' else self.env[v]
+                    elif (envb[v][0] == 'dict' and self.env[v][0] == 'dict'
+                          and ('?' in envb[v][1:]) != ('?' in self.env[v][1:])):
+                        self.env[v] = envb[v] if '?' not in envb[v][1:] else self.env[v]
                     else:
                         raise Refuse('branches give %s different types' % v)
             pat = "'" + tup if len(vs) > 1 else tup
